@@ -22,9 +22,11 @@ PHASES = {
     ],
     "C18": [
         {"pkg": "e2", "test": "TestC18HostileInput", "phase": "C18/hostile-streams"},
+        {"pkg": "e2", "test": "TestC18SplitPackets", "phase": "C18/split-packets"},
     ],
     "C17": [
         {"pkg": "e2", "test": "TestC17MountPoints", "phase": "C17/mount-point-isolation"},
+        {"pkg": "e2", "test": "TestC17NodeFailure", "phase": "C17/node-failure-wills"},
     ],
     "C14": [
         {"pkg": "e2", "test": "TestC14CrossNode", "phase": "C14/cross-node-delivery"},
@@ -34,6 +36,7 @@ PHASES = {
     ],
     "C12": [
         {"pkg": "e2", "test": "TestC12Takeover", "phase": "C12/client-id-takeover"},
+        {"pkg": "e2", "test": "TestC12Chain3", "phase": "C12/chain-of-three"},
     ],
     "C11": [
         {"pkg": "e2", "test": "TestC11Lifecycle", "phase": "C11/session-lifecycle"},
